@@ -2524,6 +2524,12 @@ impl ContinuityStore {
             });
         }
 
+        // The spawn helper planned again from the stream as it is now and recorded that plan in
+        // the job_spawned frame. Use it from here on, so the decision frame, the response and the
+        // executed job all name the cut points the spawn frame names.
+        let planned = spawned.planned.clone();
+        let message_count = spawned.message_count;
+
         let decision_id = Uuid::new_v4().to_string();
         let planned_frame = planned
             .iter()
@@ -2543,7 +2549,7 @@ impl ContinuityStore {
                 stride_messages: stride,
                 max_new_checkpoints,
                 block_on_inflight,
-                message_count: cut_points.message_count,
+                message_count,
                 cut_rule_id: cut_rule_id.clone(),
                 planned: planned_frame,
                 job_id: spawned.job_id.clone(),
@@ -2563,7 +2569,7 @@ impl ContinuityStore {
             stride_messages: stride,
             max_new_checkpoints,
             block_on_inflight,
-            message_count: cut_points.message_count,
+            message_count,
             cut_rule_id,
             planned,
             job_id: spawned.job_id,
